@@ -189,7 +189,7 @@ Proj(ww, o) ==
      rx |-> [k \in 1..Len(ob.rx) |-> RxProj(ww, o, ob.rx[k])],
      rules |-> [k \in 1..Len(ob.rules) |-> ob.rules[k]],
      rulefx |-> RuleFx(ww, o),
-     assigned |-> AssignedBy(ob),
+     assigned |-> {RuleMenu[ob.rules[k].t].tpar : k \in {k \in 1..Len(ob.rules) : RuleMenu[ob.rules[k].t].tsp = 0}},
      lin |-> [q \in 1..6 |-> [k \in 1..Len(ob.lin[q]) |-> LinProj(ww, o, ob.lin[q][k])]]]
 ItfProj(ww, i) ==
     LET it == ww.itfs[i] IN
@@ -220,12 +220,15 @@ ActsOf(kind, o) ==
       [] kind = "sim"     -> {a \in {Act("sim", o, 0, sf, I(sd), m) : m \in SimModes, sf \in {"", "safe"}, sd \in Seeds \cup {0}} : a.s \in SafeChoices(a.t)}
       [] kind = "simitf"  -> {Act("sim", o, i, IF w.itfs[i].kind \in {"safe", "safelineage"} THEN "safe" ELSE "", I(sd), m) :
                                 i \in {i \in DOMAIN w.itfs : w.itfs[i].m = o /\ ~(ob.init /\ ~w.itfs[i].cur)}, m \in SimModes, sd \in Seeds \cup {0}}
+      [] kind = "pairsim" -> {a \in {Act("pairsim", o, p, sf, I(sd), m) :
+                                   p \in {p \in DOMAIN w.objs : p # o /\ Sem(w, p) = Sem(w, o) /\ \A j \in 1..Len(ob.par) : ParVals(w, o)[j] # NaN},
+                                   m \in SimModes, sf \in {"", "safe"}, sd \in Seeds} : a.s \in SafeChoices(a.t)}
       [] kind = "seed"    -> {Act("seed", 0, sd, "", Zero, "") : sd \in Seeds}
       [] kind = "copy"    -> {Act("copy", o, 0, "", Zero, k) : k \in {k \in {"pickle", "deepcopy"} : WithCopy /\ Len(w.objs) < MaxObj}}
 Fits(a) == IF a.op = "sim" /\ a.n > 0
            THEN ModeFits(a.t, a.s, w.itfs[a.n].kind) /\ (a.t # "det" \/ a.s = "")
-           ELSE IF a.op = "sim" THEN (a.t # "cell" \/ w.objs[a.o].fam = "lineage") ELSE TRUE
-Kinds == <<"addsp", "addpar", "setpar", "setsp", "addrx", "addrule", "addlin", "init", "build", "sim", "simitf", "seed", "copy">>
+           ELSE IF a.op \in {"sim", "pairsim"} THEN (a.t # "cell" \/ w.objs[a.o].fam = "lineage") ELSE TRUE
+Kinds == <<"addsp", "addpar", "setpar", "setsp", "addrx", "addrule", "addlin", "init", "build", "sim", "simitf", "pairsim", "seed", "copy">>
 
 NoSim == [same |-> TRUE, cmp |-> FALSE, fresh |-> FALSE]
 \* the effect of an action: [w, out, sim]
@@ -241,6 +244,14 @@ Apply(a) ==
       [] a.op = "build"   -> LET r == Build(w, a.o, a.t) IN [w |-> r.w, out |-> r.out, sim |-> NoSim]
       [] a.op = "seed"    -> [w |-> Seed(w, a.n), out |-> "ok", sim |-> NoSim]
       [] a.op = "copy"    -> [w |-> CopyObj(w, a.o), out |-> "ok", sim |-> NoSim]
+      \* two objects with the same meaning are simulated from the same seed, one after the other
+      [] a.op = "pairsim" ->
+            LET r1 == SimModel(Seed(w, a.q[1]), a.o, a.t, a.s = "safe")
+                r2 == SimModel(Seed(r1.w, a.q[1]), a.n, a.t, a.s = "safe")
+            IN [w |-> r2.w, out |-> IF r1.out # "ok" THEN r1.out ELSE r2.out,
+                sim |-> [same |-> r1.read = r1.canon /\ r2.read = r2.canon,
+                         cmp |-> r1.out = "ok" /\ r2.out = "ok" /\ AllVal(ParVals(w, a.o)) /\ AllVal(ParVals(w, a.n)),
+                         fresh |-> TRUE]]
       [] a.op = "sim"     ->
             LET w0 == IF a.q[1] # 0 THEN Seed(w, a.q[1]) ELSE w
                 r == IF a.n = 0 THEN SimModel(w0, a.o, a.t, a.s = "safe") ELSE SimItf(w0, a.n, a.t)
@@ -251,7 +262,8 @@ Apply(a) ==
                          cmp |-> r.out = "ok" /\ AssignedBy(ob) = {} /\ AllVal(ParVals(r.w, a.o)),
                          fresh |-> w0.gen.seed # 0 /\ w0.gen.n = 0]]
 
-Touched(a, w2) == IF a.op = "seed" THEN << >> ELSE IF a.op = "copy" THEN <<a.o, Len(w2.objs)>> ELSE <<a.o>>
+Touched(a, w2) == IF a.op = "seed" THEN << >> ELSE IF a.op = "copy" THEN <<a.o, Len(w2.objs)>>
+                  ELSE IF a.op = "pairsim" THEN <<a.o, a.n>> ELSE <<a.o>>
 StepRec(a, r, w2) ==
     [op |-> a.op, o |-> a.o, n |-> a.n, s |-> a.s, q |-> a.q, t |-> a.t, out |-> r.out, sim |-> r.sim,
      objs |-> [j \in 1..Len(Touched(a, w2)) |-> [o |-> Touched(a, w2)[j], p |-> Proj(w2, Touched(a, w2)[j])]],
@@ -263,8 +275,10 @@ Step(a) ==
     /\ w' = w2
     /\ h' = Append(h, StepRec(a, r, w2))
     /\ last' = [op |-> a.op, o |-> a.o, out |-> r.out, same |-> r.sim.same,
-                keeps |-> IF a.op = "sim" /\ r.out = "ok" THEN SimKeeps(w, r.w, a.o) ELSE TRUE,
-                others |-> IF a.o > 0 THEN OthersKeep(w, r.w, a.o) ELSE \A p \in DOMAIN w.objs : Sem(r.w, p) = Sem(w, p),
+                keeps |-> IF a.op = "sim" /\ r.out = "ok" THEN SimKeeps(w, r.w, a.o)
+                          ELSE IF a.op = "pairsim" /\ r.out = "ok" THEN SimKeeps(w, r.w, a.o) /\ SimKeeps(w, r.w, a.n) ELSE TRUE,
+                others |-> IF a.op = "pairsim" THEN \A p \in DOMAIN w.objs \ {a.o, a.n} : Sem(r.w, p) = Sem(w, p)
+                           ELSE IF a.o > 0 THEN OthersKeep(w, r.w, a.o) ELSE \A p \in DOMAIN w.objs : Sem(r.w, p) = Sem(w, p),
                 copyeq |-> IF a.op = "copy" THEN Sem(r.w, Len(r.w.objs)) = Sem(w, a.o) /\ Sem(r.w, a.o) = Sem(w, a.o) ELSE TRUE,
                 prefix |-> \A p \in DOMAIN w.objs : PrefixOf(w.objs[p].par, r.w.objs[p].par) /\ PrefixOf(w.objs[p].sp, r.w.objs[p].sp)]
 
@@ -274,7 +288,7 @@ GNextExh == /\ Len(h) < HLen
 
 \* one random action: the kind is drawn with weights, then one of the enabled candidates of that kind
 Weighted == <<"addsp", "addpar", "setpar", "setpar", "setsp", "setsp", "addrx", "addrx", "addrule", "addlin", "addlin",
-              "init", "init", "build", "sim", "sim", "sim", "simitf", "simitf", "seed", "copy", "copy">>
+              "init", "init", "build", "sim", "sim", "sim", "simitf", "simitf", "seed", "copy", "copy", "pairsim", "pairsim", "pairsim">>
 GNextSim == /\ Len(h) < HLen
             /\ \E o \in {RandomElement(DOMAIN w.objs)} :
                \E kind \in {Weighted[RandomElement(1..Len(Weighted))]} :
@@ -358,6 +372,7 @@ Seeds2 == {7, 11}
 RxSmall == {1, 2}
 RuleSp == {1}
 RulePar == {2}
+RuleBoth == {1, 2}
 RuleAll == 1..6
 RxAll == 1..9
 RxLinSmall == {1, 13}
@@ -370,6 +385,7 @@ PreRxAll == <<1, 2, 3, 4, 5, 6, 7, 8, 9>>
 PreRulesAll == <<1, 3, 4, 5>>
 PreSetAll == <<<<"k1", I(1)>>, <<"k2", I(3)>>, <<"dm", R(1, 2)>>>>
 PreRxLin == <<13, 1, 2, 9>>
+PreRxLin0 == <<13>>
 PreRulesLin == <<1, 4>>
 PreLinAll == <<1, 2, 3, 4, 5, 6, 7, 8, 9, 10, 11, 12, 13, 14, 15, 16>>
 PreSetLin == <<<<"k1", I(1)>>, <<"k2", I(3)>>, <<"g", R(1, 4)>>, <<"vdiv", I(3)>>, <<"gm", R(1, 10)>>, <<"ke", R(1, 100)>>>>
